@@ -660,6 +660,18 @@ class VC:
             return hit if op == "In" else not hit
         return CMPS[op](l, r)
 
+    def chain(self, ops, *thunks):
+        """Python's chained comparison: the result is the first falsy comparison, else the last one"""
+        left = thunks[0]()
+        r = True
+        for op, th in zip(ops, thunks[1:]):
+            right = th()
+            r = self.compare(op, left, right)
+            if not self.truth(r):
+                return r
+            left = right
+        return r
+
     def truth_val(self, x):
         """truth value as Python bool or SymBool (no fork)"""
         if isinstance(x, SymBool):
@@ -797,7 +809,8 @@ class Instrument(ast.NodeTransformer):
         self.generic_visit(n)
         if len(n.ops) == 1:
             return _hook("compare", ast.Constant(type(n.ops[0]).__name__), n.left, n.comparators[0])
-        raise Unsupported("chained comparison")
+        # a op1 b op2 c: (a op1 b) and (b op2 c), every operand evaluated at most once, left to right, later ones only if needed
+        return _hook("chain", ast.Tuple(elts=[ast.Constant(type(o).__name__) for o in n.ops], ctx=ast.Load()), *[_thunk(v) for v in [n.left] + list(n.comparators)])
 
     def visit_BoolOp(self, n):
         self.generic_visit(n)
